@@ -89,6 +89,7 @@ fn apply(state: &mut Vec<Map>, op: &WOp) {
         WOp::Clear(k) => state[*k].clear(),
         WOp::Batch(_, items) => for (k, key, v) in items { match v { Some(v) => { state[*k].insert(key.clone(), v.clone()); } None => { state[*k].remove(key); } } },
         WOp::Persist(_) | WOp::RotateJournal => {}
+        WOp::Tx(..) => unreachable!("modelled() turns transactions into batches"),
     }
 }
 
@@ -108,6 +109,7 @@ fn model_cmd(op: &WOp, seq: u64, ids: &[u64]) -> String {
         }
         WOp::Persist(m) => format!("wr.op persist {}", mode_s(m)),
         WOp::RotateJournal => "wr.op rotate".into(),
+        WOp::Tx(..) => unreachable!("modelled() turns transactions into batches"),
     }
 }
 
@@ -149,7 +151,7 @@ fn run_model(lean: &mut Lean, w: &Workload, ids: &[u64], seqs: &[u64], fault: &s
 fn run_case(seed: u64, mode: &str, thorough: bool, lean: &mut Lean, hist: &mut BTreeMap<String, u64>, samples: &mut Vec<J>) -> (Vec<Failure>, bool, u64) {
     let mut fails = vec![];
     let rot = mode == "c09";
-    let w = wl::gen_with(seed, rot);
+    let w = wl::gen_with(seed, rot).modelled(); // transactions appear as the batch their commit emits
     let scratch = Scratch::new("flt");
     let dir = scratch.join("db");
     let mut r = Rng::new(seed ^ 0xabcdef);
@@ -229,6 +231,7 @@ fn run_case(seed: u64, mode: &str, thorough: bool, lean: &mut Lean, hist: &mut B
                     WOp::Insert(..) | WOp::Remove(..) | WOp::Clear(..) => !w.manual,
                     WOp::Batch(d, it) => d.is_some() && !it.is_empty(),
                     WOp::Persist(_) | WOp::RotateJournal => true,
+                    WOp::Tx(..) => unreachable!(),
                 };
                 if pushes { must = i + 1; }
             }
@@ -333,6 +336,7 @@ fn short(o: &WOp) -> String {
         WOp::Batch(d, it) => format!("batch {:?} {:?}", d, it.iter().map(|(k, key, v)| (k, hex(key), v.as_ref().map(|x| x.len()))).collect::<Vec<_>>()),
         WOp::Persist(m) => format!("persist {m:?}"),
         WOp::RotateJournal => "rotate-journal".into(),
+        WOp::Tx(..) => unreachable!(),
     }
 }
 
